@@ -31,6 +31,9 @@ func checkC06(c *Ctx) {
 	c06Policy(c)
 	c06PHash(c)
 	c06Clones(c)
+	c06Fragment(c)
+	c06Deliver(c)
+	c07MustDecrypt(c) // includes: Read pulls a new record only when no decrypted data is pending
 }
 
 type hsRole struct {
@@ -643,4 +646,222 @@ func c06Clones(c *Ctx) {
 		c.Evals++
 		c.Check(len(diff) == 0 && len(ma) >= 3, rule, fname(a), "consults the configuration through the same helpers as "+p[1], fmt.Sprintf("%d helpers", len(ma)), "the auto-switch copy and its original read the configuration differently ("+strings.Join(diff, "; ")+"): the same configuration negotiates differently depending on which server entry point is used", a.Pos())
 	}
+}
+
+// c06Fragment: writeRecordLocked cuts the payload into records without losing, repeating or reordering a byte: in
+// each round the SAME length m (at most the remaining data) is what the record header announces, what the block is
+// sized for, what is copied from the front of the remaining data, what is added to the returned count and what the
+// remaining data is advanced by.
+func c06Fragment(c *Ctx) {
+	rule := "K-C06-fragment"
+	f := c.Fn("gmtls", "(*Conn).writeRecordLocked")
+	if f == nil {
+		c.Missing(rule, "gmtls.(*Conn).writeRecordLocked", "method", "not found")
+		return
+	}
+	var dataParam ssa.Value
+	for _, p := range f.Params {
+		if p.Name() == "data" {
+			dataParam = p
+		}
+	}
+	// the loop-carried remaining data: phi(data, rest) with rest = phi[m:]
+	var rem *ssa.Phi
+	var adv *ssa.Slice
+	instrsOf(f, func(_ *ssa.BasicBlock, in ssa.Instruction) {
+		ph, ok := in.(*ssa.Phi)
+		if !ok || len(ph.Edges) != 2 || rem != nil {
+			return
+		}
+		for i, e := range ph.Edges {
+			if e == dataParam {
+				if sl, ok := ph.Edges[1-i].(*ssa.Slice); ok && sl.X == ssa.Value(ph) && sl.High == nil && sl.Low != nil {
+					rem, adv = ph, sl
+				}
+			}
+		}
+	})
+	if rem == nil {
+		c.Undecided(rule, fname(f), "the loop over the remaining data", "no loop-carried `data = data[m:]` found", f.Pos())
+		return
+	}
+	m := adv.Low
+	lb := &LB{p: c.P, f: f, UsedContracts: map[string]bool{}}
+	// (1) 0 <= m <= len(remaining)
+	c.Evals++
+	ok1 := lb.prove([]cons{le(lb.linOf(m), lb.lenLin(rem))}, adv.Block(), nil, map[lvar]lin{}, 2)
+	c.Check(ok1, rule, fname(f), "the fragment length is at most the remaining data", "", "not provable that m <= len(data) where the remaining data is advanced by m", adv.Pos())
+	// (2) the header announces m: b.data[3] = byte(m>>8), b.data[4] = byte(m)
+	c.Evals++
+	hdr := map[int64]bool{}
+	instrsOf(f, func(_ *ssa.BasicBlock, in ssa.Instruction) {
+		st, ok := in.(*ssa.Store)
+		if !ok {
+			return
+		}
+		ia, ok := st.Addr.(*ssa.IndexAddr)
+		if !ok {
+			return
+		}
+		k, isK := constInt(ia.Index)
+		if !isK || (k != 3 && k != 4) {
+			return
+		}
+		cv, ok := st.Val.(*ssa.Convert)
+		if !ok {
+			return
+		}
+		switch k {
+		case 4:
+			if cv.X == m {
+				hdr[4] = true
+			}
+		case 3:
+			if sh, ok := cv.X.(*ssa.BinOp); ok && sh.Op == token.SHR && sh.X == m {
+				if s, isS := constInt(sh.Y); isS && s == 8 {
+					hdr[3] = true
+				}
+			}
+		}
+	})
+	c.Check(hdr[3] && hdr[4], rule, fname(f), "the record header's length field is m", "", "the two length bytes of the record header are not byte(m>>8), byte(m) for the m the data is advanced by", adv.Pos())
+	// (3) the block is sized 5 + explicitIVLen + m and the payload copied behind header and IV from the remaining data
+	c.Evals++
+	okSize, okCopy := false, false
+	var ivLen lin
+	for _, call := range callsNamedIn(f, "resize") {
+		if len(call.Call.Args) == 2 {
+			d := lb.linOf(call.Call.Args[1]).addScaled(lb.linOf(m), -1)
+			// d = 5 + explicitIVLen
+			if d.k == 5 && len(d.c) <= 1 {
+				okSize = true
+				ivLen = d
+			}
+		}
+	}
+	if okSize {
+		instrsOf(f, func(_ *ssa.BasicBlock, in ssa.Instruction) {
+			call, ok := in.(*ssa.Call)
+			if !ok {
+				return
+			}
+			bi, ok := call.Call.Value.(*ssa.Builtin)
+			if !ok || bi.Name() != "copy" || call.Call.Args[1] != ssa.Value(rem) {
+				return
+			}
+			if sl, ok := call.Call.Args[0].(*ssa.Slice); ok && sl.Low != nil && sl.High == nil {
+				d := lb.linOf(sl.Low).addScaled(ivLen, -1)
+				if len(d.c) == 0 && d.k == 0 {
+					okCopy = true
+				}
+			}
+		})
+	}
+	c.Check(okSize && okCopy, rule, fname(f), "the block holds header + explicit IV + m bytes and the payload is copied from the front of the remaining data", "", fmt.Sprintf("block size is 5+explicitIVLen+m: %v; payload copied to b.data[5+explicitIVLen:] from the remaining data: %v", okSize, okCopy), adv.Pos())
+	// (4) the returned count advances by m
+	c.Evals++
+	okN := false
+	instrsOf(f, func(_ *ssa.BasicBlock, in ssa.Instruction) {
+		ph, ok := in.(*ssa.Phi)
+		if !ok || ph.Block() != rem.Block() || ph == rem {
+			return
+		}
+		for _, e := range ph.Edges {
+			if add, ok := e.(*ssa.BinOp); ok && add.Op == token.ADD && ((add.X == ssa.Value(ph) && add.Y == m) || (add.Y == ssa.Value(ph) && add.X == m)) {
+				// and it is what the function returns (directly, or through the result slot that a deferred call forces)
+				for _, r := range *ph.Referrers() {
+					switch x := r.(type) {
+					case *ssa.Return:
+						okN = true
+					case *ssa.Store:
+						if _, isAl := x.Addr.(*ssa.Alloc); isAl && x.Val == ssa.Value(ph) {
+							okN = true
+						}
+					}
+				}
+			}
+		}
+	})
+	c.Check(okN, rule, fname(f), "the returned byte count is the sum of the fragment lengths", "", "the count returned on success is not the loop-carried sum of m", adv.Pos())
+}
+
+// c06Deliver: (*block).Read hands out the not-yet-delivered part of a decrypted record exactly once: it copies from
+// data[off:], advances off by the number of bytes copied and returns that number; readRecord sets off to the
+// length of header + explicit IV that decrypt reports.
+func c06Deliver(c *Ctx) {
+	rule := "K-C06-deliver"
+	f := c.Fn("gmtls", "(*block).Read")
+	if f == nil {
+		c.Missing(rule, "gmtls.(*block).Read", "method", "not found")
+		return
+	}
+	isField := func(v ssa.Value, name string) bool {
+		ld, ok := v.(*ssa.UnOp)
+		if !ok || ld.Op != token.MUL {
+			return false
+		}
+		fa, ok := ld.X.(*ssa.FieldAddr)
+		return ok && fieldName(fa.X.Type(), fa.Field) == name && fa.X == ssa.Value(f.Params[0])
+	}
+	var cp *ssa.Call
+	instrsOf(f, func(_ *ssa.BasicBlock, in ssa.Instruction) {
+		if call, ok := in.(*ssa.Call); ok {
+			if bi, ok := call.Call.Value.(*ssa.Builtin); ok && bi.Name() == "copy" {
+				cp = call
+			}
+		}
+	})
+	c.Evals++
+	okCopy := false
+	if cp != nil && cp.Call.Args[0] == ssa.Value(f.Params[1]) {
+		if sl, ok := cp.Call.Args[1].(*ssa.Slice); ok && sl.High == nil && isField(sl.X, "data") && sl.Low != nil && isField(sl.Low, "off") {
+			okCopy = true
+		}
+	}
+	c.Check(okCopy, rule, fname(f), "copies from data[off:] into the caller's buffer", "", "block.Read does not copy(p, b.data[b.off:])", f.Pos())
+	c.Evals++
+	okAdv := false
+	instrsOf(f, func(_ *ssa.BasicBlock, in ssa.Instruction) {
+		st, ok := in.(*ssa.Store)
+		if !ok {
+			return
+		}
+		fa, ok := st.Addr.(*ssa.FieldAddr)
+		if !ok || fieldName(fa.X.Type(), fa.Field) != "off" {
+			return
+		}
+		if add, ok := st.Val.(*ssa.BinOp); ok && add.Op == token.ADD && cp != nil && ((isField(add.X, "off") && add.Y == ssa.Value(cp)) || (isField(add.Y, "off") && add.X == ssa.Value(cp))) {
+			okAdv = true
+		}
+	})
+	okRet := false
+	for _, b := range f.Blocks {
+		if ret, ok := b.Instrs[len(b.Instrs)-1].(*ssa.Return); ok && len(ret.Results) == 2 && cp != nil && unspill(ret.Results[0]) == ssa.Value(cp) && isNilConst(unspill(ret.Results[1])) {
+			okRet = true
+		}
+	}
+	c.Check(okAdv && okRet, rule, fname(f), "advances off by the number of bytes copied and returns it", "", fmt.Sprintf("off += n with n the copy count: %v; returns (n, nil): %v", okAdv, okRet), f.Pos())
+	// readRecord: b.off = the prefix length returned by decrypt, before the block becomes c.input
+	rr := c.Fn("gmtls", "(*Conn).readRecord")
+	if rr == nil {
+		return
+	}
+	c.Evals++
+	okOff := false
+	for _, call := range callsNamedIn(rr, "decrypt") {
+		for _, r := range *call.Referrers() {
+			ex, ok := r.(*ssa.Extract)
+			if !ok || ex.Index != 1 {
+				continue
+			}
+			for _, r2 := range *ex.Referrers() {
+				if st, ok := r2.(*ssa.Store); ok {
+					if fa, ok := st.Addr.(*ssa.FieldAddr); ok && fieldName(fa.X.Type(), fa.Field) == "off" {
+						okOff = true
+					}
+				}
+			}
+		}
+	}
+	c.Check(okOff, rule, fname(rr), "delivery starts behind the record header and explicit IV reported by decrypt", "", "readRecord does not set b.off to decrypt's prefix length", rr.Pos())
 }
